@@ -62,6 +62,13 @@ fn configs(max_feats: usize) -> Vec<Cfg> {
         for last in [false, true] {
             for first in [false, true] {
                 for os in [false, true] {
+                 for touch in [false, true] {
+                  // `touch`: the leading positional is passed through `Command::mut_arg(id, |a| a)`
+                  // after the definition is complete — an identity edit that re-inserts it at the
+                  // end of the argument list; nothing observable may change
+                  if touch && !first {
+                      continue;
+                  }
                   for lowidx in [false, true] {
                     // low-index multiple: `<f>... <rest>` (multi-value positional before a required
                     // single one); one variant of the plain shape only
@@ -141,8 +148,11 @@ fn configs(max_feats: usize) -> Vec<Cfg> {
                         }
                         c.args.push(rest);
                         c.subs.push(sub);
+                        if touch {
+                            c.touch.push("f".into());
+                        }
                         out.push(Cfg {
-                            name: if lowidx { format!("<f>... <rest>{} {:?}", if os { " os" } else { "" }, feats) } else { format!("rest({}..){}{}{} {:?}", min, if last { " last" } else { "" }, if first { " after [f]" } else { "" }, if os { " os" } else { "" }, feats) },
+                            name: if lowidx { format!("<f>... <rest>{}{} {:?}", if os { " os" } else { "" }, if touch { " mut_arg(f)" } else { "" }, feats) } else if touch { format!("rest({}..){} after [f] mut_arg(f){} {:?}", min, if last { " last" } else { "" }, if os { " os" } else { "" }, feats) } else { format!("rest({}..){}{}{} {:?}", min, if last { " last" } else { "" }, if first { " after [f]" } else { "" }, if os { " os" } else { "" }, feats) },
                             spec: c,
                             delim_split,
                             os,
@@ -150,6 +160,7 @@ fn configs(max_feats: usize) -> Vec<Cfg> {
                         });
                     }
                   }
+                 }
                 }
             }
         }
